@@ -6,6 +6,7 @@ GInit == Init /\ hist = <<>>
 GNext ==
   /\ steps < MaxSteps
   /\ \/ \E m \in BOOLEAN : Stdout(m) /\ H([a |-> "Stdout", marker |-> m])
+     \/ Stderr /\ H([a |-> "Stderr"])
      \/ \E h \in {"ok", "authfail", "refused"} : Connect(h) /\ H([a |-> "Connect", how |-> h])
      \/ \E ok \in BOOLEAN : CtlReply(ok) /\ H([a |-> "CtlReply", ok |-> ok])
      \/ \E p \in {10, 50, 100} : Progress(p) /\ H([a |-> "Progress", p |-> p])
